@@ -41,6 +41,12 @@ pub struct Case {
 	/// so the enlargement (which waits for open transactions and holds back new ones) falls into the run
 	#[serde(default)]
 	pub near_full: bool,
+	/// (base chain, with the compaction thread) the first new block spends the two oldest sibling outputs —
+	/// leaves a compaction may physically remove once they are spent below the horizon — and the next two blocks
+	/// are a heavier fork from its parent: the compaction runs while that block is being committed and the
+	/// reorganisation then has to rewind it
+	#[serde(default)]
+	pub old_pair: bool,
 }
 
 pub fn case_strategy() -> impl Strategy<Value = Case> {
@@ -58,20 +64,31 @@ pub fn case_strategy() -> impl Strategy<Value = Case> {
 		(0u16..300, 0u16..500, 50u16..2000),
 		any::<u64>(),
 		prop::bool::weighted(0.35),
+		prop::bool::weighted(0.2),
 	)
-		.prop_map(|(on_base, blocks, peers, header_threads, readers, compact, (p_sleep, p_yield, max_sleep_us), plan_seed, near_full)| Case {
-			on_base,
+		.prop_map(|(on_base, mut blocks, peers, header_threads, readers, compact, (p_sleep, p_yield, max_sleep_us), plan_seed, near_full, old_pair)| {
+			if old_pair {
+				blocks[0].parent = 0;
+				blocks[0].neg = Neg::None;
+				blocks[0].inp = 0;
+				blocks[0].txs = vec![RawTx { ins: vec![65535, 65534], outs: vec![RawOut { kind: 0, amt: 1, key: 1 }], fee: 1, kern: 0, zero_offset: false, chain_prev: false }];
+				blocks[1].parent = 101;
+				blocks[2].parent = 1;
+			}
+			Case {
+			on_base: on_base || old_pair,
 			blocks,
 			peers,
 			header_threads,
 			readers,
-			compact,
+			compact: compact || old_pair,
 			p_sleep,
 			p_yield,
 			max_sleep_us,
 			plan_seed,
 			near_full,
-		})
+			old_pair,
+		}})
 }
 
 thread_local! {
@@ -554,6 +571,9 @@ pub fn run_case(ctx: &Ctx, case: &Case, counting: bool) -> PResult {
 		}
 		if case.compact && case.on_base {
 			ev.class("runs_with_concurrent_compaction");
+		}
+		if case.old_pair {
+			ev.class("runs_compacting_while_an_old_sibling_pair_is_spent_and_then_reorganised");
 		}
 		if let Some(m0) = map_before {
 			ev.class("runs_on_a_database_close_to_its_resize_threshold");
